@@ -42,7 +42,8 @@ PROBES = ["overloads_same_param_names", "optional_param_member", "class_missing_
           "bindings_with_marker", "bindings_expected_empty", "more_bindings_than_documented_overloads",
           "xml_member_has_extra_optional_param", "overloads_with_permuted_param_names",
           "literals_crosschecked_with_gpp", "binding_after_fault_on_its_file", "text_longer_than_512", "decoy_class_with_similar_name",
-          "decoy_member_with_similar_name"]
+          "decoy_member_with_similar_name", "param_documented_without_text", "param_item_without_name",
+          "section_ahead_of_return", "return_section_partial"]
 
 
 def batches(tier):
@@ -85,7 +86,7 @@ PIECES = ["compute the value", "returns x", "see also", "a", "f", "0", "9", "abc
           "\"", "'", "\\", "\\n", "\n", "\t", "?", "??/", "??=", "??'", "??)", "%s", "{0}", "{", "}", "\\x41",
           "\u00e9", "\u00fc", "\u4e2d\u6587", "\u2192", "\U0001f600", "\u00a0", "\u00ad", "\u0085",
           "\u007f", "\u2028", "\u200b", "\ue000", "\U000e0001", "10\u00a0cm", "caf\u00e9", "<b>", "&amp;",
-          "]]>", "*/", "//", "R\"(", ")\"", "\r", "\u009f", "\u00a0f"]
+          "]]>", "*/", "//", "R\"(", ")\"", "\r", "\u009f", "\u00a0f", "self->print", "self->", ".def(", "py::arg(\"x\")"]
 
 
 ESCAPE_DENSE = ["\\", "\"", "\n", "\t", "\r", "\u2028", "\u0085", "\u007f", "?", "\u00e9", "x", "\\n", "%"]
@@ -380,6 +381,29 @@ def gen_case(tape, batch):
                  "argsstring": True}
             if m["param_docs"] and m["detailed"] is None:
                 m["param_docs"] = None
+            # partial but well-formed documentation: a parameter listed without description text or without
+            # a name, a return section without text or without `kind`, other sections (@see, @note) ahead of it
+            if m["param_docs"] and tape.bool(0.2, "partial-param-docs"):
+                k = tape.choose(len(m["param_docs"]), "which-param-doc")
+                pn, pd = m["param_docs"][k]
+                if tape.bool(0.75, "no-description-para"):
+                    m["param_docs"][k] = (pn, None)
+                    pr["param_documented_without_text"] = 1
+                else:
+                    m["param_docs"][k] = (None, pd)
+                    pr["param_item_without_name"] = 1
+            if m["detailed"] is not None and tape.bool(0.12, "other-sections"):
+                m["sects_before"] = [(tape.pick(["see", "note", "warning"], "sect-kind"), gen_text(tape, ""))]
+                pr["section_ahead_of_return"] = 1
+            if m["returns"] is not None and tape.bool(0.15, "partial-return"):
+                how = tape.pick(["nopara", "nokind", "otherkind"], "partial-return-kind")
+                if how == "nopara":
+                    m["returns"] = "\0nopara"
+                elif how == "nokind":
+                    m["returns_kind"] = None
+                else:
+                    m["returns_kind"] = "see"
+                pr["return_section_partial"] = 1
             if style == 3:
                 m["marker"] = None
             entry["members"].append(m)
